@@ -1,7 +1,7 @@
 SPECIFICATION TSpec
 CONSTANTS
   NW = 4
-  MaxTask = 24
+  MaxTask = 128
   MaxOps = 100000
   Bug = "none"
   Sizes = {1}
